@@ -491,6 +491,48 @@ func execOPRF(p *Plan, run *core.Run) {
 				}
 			}
 		}
+		// key rotation: the application keeps ONE public-key object, loads the server's new key
+		// into it and goes on with the clients it built around that object; same info as before
+		if mode != oprf.BaseMode && p.Seed%3 != 0 {
+			run.Fault("history:server-key-rotated-into-the-clients-key-object")
+			pk2, _ := skOther.Public().MarshalBinary()
+			if err := pkC.UnmarshalBinary(suite, pk2); err != nil {
+				run.Violate(comp+".PublicKey.UnmarshalBinary", "rejects-own-encoding", "%v", err)
+				return
+			}
+			epoch := func(server *oprf.PrivateKey) error {
+				var f2 *oprf.FinalizeData
+				var r2 *oprf.EvaluationRequest
+				var e2 *oprf.Evaluation
+				var err error
+				if mode == oprf.VerifiableMode {
+					if f2, r2, err = vcl.Blind(inputs); err != nil {
+						return err
+					}
+					if e2, err = oprf.NewVerifiableServer(suite, server).Evaluate(r2); err != nil {
+						return err
+					}
+					_, err = vcl.Finalize(f2, e2)
+					return err
+				}
+				if f2, r2, err = pcl.Blind(inputs); err != nil {
+					return err
+				}
+				if e2, err = oprf.NewPartialObliviousServer(suite, server).Evaluate(r2, sinfo); err != nil {
+					return err
+				}
+				_, err = pcl.Finalize(f2, e2, cinfo)
+				return err
+			}
+			if err := epoch(skOther); err != nil {
+				run.Violate(comp+".Finalize", "honest-server-rejected-after-key-rotation", "the client's public-key object was loaded with the server's new key; the new server's evaluation is refused: %v", err)
+				return
+			}
+			if err := epoch(sk); err == nil {
+				run.Violate(comp+".Finalize", "accepts-pk-other", "after the client's public-key object was loaded with a new key, an evaluation under the OLD key still finalises")
+				return
+			}
+		}
 		return
 	}
 	// faulted
